@@ -14,7 +14,7 @@
 (*   AbsentIsZero   zero-filling every operand leaves the dense result     *)
 (*                  unchanged (C07)                                        *)
 (***************************************************************************)
-EXTENDS Calc, Json
+EXTENDS Calc, Json, SequencesExt
 
 CONSTANTS Kind, N, M,     \* the type: Kind in {"Dual","DualVec",...}, dimensions
           NR,             \* number of registers
@@ -34,8 +34,10 @@ Ty == CASE Kind = "Dual" -> B!TDual
         [] Kind = "HyperDualVec" -> B!THyperDualVec(M, N)
         [] Kind = "HHD" -> B!THHD
 
-VARIABLES regs, hist
-vars == <<regs, hist>>
+VARIABLES regs, hist,
+          rnd      \* "sim" mode: the pseudo-random numbers that select the next event (drawn one
+                   \* step ahead, so that the selected event is a function of the state)
+vars == <<regs, hist, rnd>>
 
 Regs == 1..NR
 \* destination registers: in "bfs" mode results go to register 1 (the choice of the
@@ -52,19 +54,26 @@ DepFuns(cod) ==
              rest == [g \in DOMAIN cod \ {f} |-> cod[g]]
          IN  {[g \in DOMAIN cod |-> IF g = f THEN x ELSE h[g]] : h \in DepFuns(rest), x \in cod[f]}
 
-\* one pseudo-random value (simulation mode only)
-RandMat(r, c) == [i \in 1..r |-> [j \in 1..c |-> RandomElement(PartGrid)]]
+FieldIdx(f) == CHOOSE i \in 1..Len(B!Fields(Ty)) : B!Fields(Ty)[i] = f
+\* selection by the random numbers held in the state
+NRnd == 60
+RandVec(t) == [i \in 1..NRnd |-> RandomElement(0..(99999 + t - t))]
+PickS(S, i) == LET q == SetToSeq(S) IN q[(rnd[i] % Len(q)) + 1]
 RandValue ==
     [f \in {"re"} \cup B!FieldSet(Ty) |->
-        IF f = "re" THEN RandomElement(ReGrid)
-        ELSE IF B!IsVec(Ty)
+        IF f = "re" THEN PickS(ReGrid, 11)
+        ELSE LET fi == FieldIdx(f) IN
+             IF B!IsVec(Ty)
              THEN LET d == B!PartDims(Ty, f)
-                  IN  IF RandomElement(1..4) = 1 THEN B!None ELSE B!Some(RandMat(d[1], d[2]))
-             ELSE RandomElement(PartGrid)]
+                  IN  IF rnd[11 + fi] % 4 = 0 THEN B!None
+                      ELSE B!Some([i \in 1..d[1] |-> [j \in 1..d[2] |->
+                                      PickS(PartGrid, 20 + ((7 * fi + 3 * i + j) % 40))]])
+             ELSE PickS(PartGrid, 20 + fi)]
 
 ---------------------------------------------------------------------------
 Init == /\ regs = [r \in Regs |-> B!ZeroB(Ty)]
         /\ hist = <<>>
+        /\ rnd = IF Mode = "sim" THEN RandVec(0) ELSE <<>>
 
 \* perform event ev: an observation leaves the registers alone
 Do(ev) ==
@@ -119,9 +128,39 @@ Obs ==
     \/ /\ Kind \in {"Dual", "DualVec", "Dual2", "Dual2Vec"}
        /\ \E op \in Cmps, a \in Regs, b \in Regs : Do(Ev(op, "", a, b, a, a, Q0, 0, NoRs))
 
-Next == \/ Load
-        \/ ~Loading /\ (Bin \/ BinF \/ Un \/ Powi \/ Powf \/ Bin2 \/ MulAdd \/ Fold \/ Const \/ Obs)
+Next == /\ \/ Load
+           \/ ~Loading /\ (Bin \/ BinF \/ Un \/ Powi \/ Powf \/ Bin2 \/ MulAdd \/ Fold \/ Const \/ Obs)
+        /\ UNCHANGED rnd
 Spec == Init /\ [][Next]_vars
+
+\* Sampling ("sim" mode): one pseudo-random instance of an event per step instead of TLC's
+\* enumeration of all successors; an event that is not enabled is replaced by a load.
+\* The event is a function of the random numbers in the state (rnd), so it is the same
+\* event wherever the action mentions it; rnd is redrawn for the next step.
+PR(S, i) == PickS(S, i)
+RandEv ==
+    LET cat == (rnd[1] % 20) + 1
+        a == PR(Regs, 2)  b == PR(Regs, 3)  c == PR(Regs, 4)  d == PR(Regs, 5)
+    IN  CASE cat \in 1..5   -> LET f == PR(BinForms, 6) IN Ev(PR(BinOps, 7), f, a, b, a, IF f = "assign" THEN a ELSE d, Q0, 0, NoRs)
+          [] cat \in 6..7   -> LET f == PR(FForms, 6) IN Ev(PR(FOps, 7), f, a, a, a, IF f = "assign" THEN a ELSE d, PR(ScalarGrid, 8), 0, NoRs)
+          [] cat \in 8..11  -> Ev(PR(UnOps, 7), "", a, a, a, d, Q0, 0, NoRs)
+          [] cat = 12       -> Ev("powi", "", a, a, a, d, Q0, PR(PowSet, 8), NoRs)
+          [] cat = 13       -> Ev("powf", "", a, a, a, d, PR({QInt(n) : n \in PowSet} \cup {<<1, 2>>, <<3, 2>>, <<5, 2>>, <<-1, 2>>}, 8), 0, NoRs)
+          [] cat = 14       -> Ev(PR({"powd", "atan2", "abs_sub"}, 7), "", a, b, a, d, Q0, 0, NoRs)
+          [] cat = 15       -> Ev("mul_add", "", a, b, c, d, Q0, 0, NoRs)
+          [] cat = 16       -> LET k == rnd[8] % 4 IN Ev(PR({"sum", "product"}, 7), PR({"owned", "ref"}, 6), d, d, d, d, Q0, 0, [i \in 1..k |-> PR(Regs, 8 + i)])
+          [] cat = 17       -> Ev(PR({"zero", "one", "from_f"}, 7), "", d, d, d, d, PR(ScalarGrid, 8), 0, NoRs)
+          [] cat = 18       -> Ev(PR(Preds \cup {"re"}, 7), "", a, a, a, a, Q0, 0, NoRs)
+          [] cat \in 19..20 -> [op |-> "load", form |-> "", a |-> d, b |-> d, c |-> d, d |-> d,
+                                s |-> Q0, n |-> 0, rs |-> NoRs, v |-> RandValue]
+SimStep ==
+    /\ LET ev == RandEv
+       IN  IF ev.op \in OpFilter /\ Enabled(Ty, regs, ev) THEN Do(ev)
+           ELSE LET d == PR(Regs, 5) IN
+                Do([op |-> "load", form |-> "", a |-> d, b |-> d, c |-> d, d |-> d,
+                    s |-> Q0, n |-> 0, rs |-> NoRs, v |-> RandValue])
+    /\ rnd' = RandVec(Len(hist))
+SpecSim == Init /\ [][SimStep]_vars
 
 ---------------------------------------------------------------------------
 (* emission of behaviours (spec -> implementation) *)
@@ -221,7 +260,6 @@ SmallVals == IF Mant >= 53
                      <<1, 2>>, <<-3, 2>> >>
              ELSE << <<1, 1>>, <<-2, 1>>, <<3, 1>>, <<-1, 1>>, <<2, 1>>, <<-3, 1>> >>
 GenScalar(k) == SmallVals[(k % Len(SmallVals)) + 1]
-FieldIdx(f) == CHOOSE i \in 1..Len(B!Fields(Ty)) : B!Fields(Ty)[i] = f
 GenValue(k, pres, re) ==
     [f \in {"re"} \cup B!FieldSet(Ty) |->
         IF f = "re" THEN re
@@ -250,6 +288,7 @@ PowSetSmall   == {-2, 0, 1, 2, 3, 5}
 OpsArith == {"load", "add", "sub", "mul", "div", "neg", "neg_ref", "powi", "recip", "inv"}
 OpsForms == {"load"} \cup BinOps \cup FOps \cup {"neg", "neg_ref", "inv", "recip", "sum", "product",
                                                "mul_add", "from_f", "zero", "one", "abs_sub"}
+OpsElem == {"load"} \cup UnOps \cup {"atan2", "recip", "powd"}
 AllOps == {"load"} \cup BinOps \cup FOps \cup UnOps \cup Preds \cup Cmps
           \cup {"powi", "powf", "powd", "atan2", "abs_sub", "mul_add", "sum", "product",
                 "from_f", "zero", "one", "re"}
